@@ -52,7 +52,7 @@ PROPS = {
         "undecided": [],
         "trust": ["Verus 0.2026.09.13 / Z3; extractor rules (verus/extract.py); R4: core::fmt renders a char / String as itself; the trait-level Mer/Kmer contract used by the text functions is the one Kani discharges per shipped type (families k_get, k_len)"],
         "level_text": "Text rendering: the real default body of Kmer::to_string and the real bodies of Debug for IntKmer / VarIntKmer are proved, for every K and every value, to produce exactly the K letters of the k-mer (Verus unit kmertext, against the trait contract); the real default bodies of Kmer::extend, from_bytes and from_ascii are proved once, for every implementation that does not override them, against the primitive contracts empty / set_mut / extend_left / extend_right (same unit). Every Mer/Kmer operation of each shipped k-mer type is proved equal to the same operation on the K-letter string for ALL storage values and all in-range arguments: Kani contract harnesses over a fully symbolic storage word, loop-free or K-bounded with unwinding assertions (complete, not sampled).",
-        "level_note": "Trusted: rustc->MIR, Kani/CBMC soundness. Preconditions (derived from call sites): bases < 4, from_u64(v) with v < 4^K, set_slice_mut with 1<=n<=32 and pos+n<=K. quick = 11 representative types, thorough = all 19.",
+        "level_note": "Trusted: rustc->MIR, Kani/CBMC soundness; for the text / default-body unit kmertext: Verus/Z3, extractor rules, R4. Preconditions (derived from call sites): bases < 4, from_u64(v) with v < 4^K, set_slice_mut with 1<=n<=32 and pos+n<=K. quick = 11 representative types, thorough = all 19.",
     },
     "C11": {
         "title": "K-mer equality, order and hash are those of the string",
@@ -207,7 +207,7 @@ PROPS["C14"] = {
                   "derived ==/Hash: lemma_eq_iff_view proves (storage, len) equal <=> views equal on wf values for all lengths; that the derived impls compare/hash exactly (storage, len) is the derive semantics (assumed; cross-checked by the bounded stand-ins)"],
     "trust": VERUS_TRUST + [ADAPTER_NOTE],
     "level_text": "Data-structure contract: every DnaString operation under contract (new, with_capacity, blank, push, extend, from_bytes, from_dna_string, from_acgt_bytes (scalar path and vector path steps), to_bytes, to_ascii_vec, Display, reverse, rc, set_mut, get, len, is_empty, clear, push_bytes, iter/next, addr/get_by_addr/set_by_addr; PackedDnaStringSet::new/add/get/slice/len) is proved to preserve the representation invariant wf (exact word count, zero padding) and to transform the abstract base vector exactly as the plain-vector operation does, for all lengths (Verus, unbounded). ndiffs / hamming_distance are proved to count the differing positions of two equal-length strings for every length (padding contributes nothing by wf). History quantifier = induction over these per-operation contracts.",
-    "level_note": "Trusted: Verus/Z3, extractor rules, vstd Vec specs. See undecided_clauses for the operations that are not under an unbounded contract.",
+    "level_note": "Trusted: Verus/Z3, extractor rules R1-R21 (item-source seams, see trusted_base), vstd Vec specs, derive semantics of ==/Hash/Ord over the declared field order (obligation derive_shape_DnaString). Every listed operation is under an unbounded contract; see undecided_clauses for the instance / derive caveats.",
 }
 
 PROPS["C15"] = {
@@ -414,7 +414,7 @@ PROPS["C08"] = {
         "the glue between the pieces (msp_sequence passes exactly this closure to Scanner::new; the default permutation 0..4^p is a permutation) is by inspection, not a discharged obligation"],
     "trust": VERUS_TRUST + [SEAM_NOTE],
     "level_text": "Proved as lemmas over the verified contract of the real Scanner::scan (C07): for two scans - of any two reads - whose score functions agree and identify p-mers up to a class, two occurrences of the same k-mer (lemma_same_bucket) or an occurrence and a reverse-complement occurrence under a strand-symmetric score (lemma_same_bucket_rc) receive minimizers of the same class, hence the same bucket id (bucket = rank of the canonical minimizer; min_rc / to_u64 proved by Kani for all p-mer values). Exts::from_slice_bounds and Exts::from_dna_string are proved to return exactly the read's two flanking bases and none at a read end, for every length (Verus, unbounded, real bodies). The REAL score closure of msp_sequence (statement extracted by rule R15) is proved to compute perm[rank x] resp. min(perm[rank x], perm[rank rc x]), and two lemmas show that such a score over an injective table is strand symmetric and identifies p-mers up to reverse complement - the hypotheses of the bucket lemmas. The REAL body of msp_sequence's piece closure (rule R15) is proved to turn an interval into (its bucket, the read's flanking bases as boundary extensions, the exact substring at (start, len)).",
-    "level_note": "Partial claim (see undecided_clauses): the msp_sequence iterator pipeline is not under contract; Vmer::new / set_mut are the trait-level seam (Kani families l_new / l_set_mut per Lmer type). Trusted: Verus/Z3, extractor rules, the V<->K seam.",
+    "level_note": "Partial claim (see undecided_clauses): of msp_sequence the score closure, the scan, the piece closure and the closing map-collect expression are under contract, its head (default permutation, building the Scanner) is not; Vmer::new / set_mut are the trait-level seam (Kani families l_new / l_set_mut per Lmer type). Trusted: Verus/Z3, extractor rules, the V<->K seam.",
 }
 
 PAIRED_KANI = {
@@ -467,7 +467,7 @@ PROPS["C20"] = {
         "core::fmt renders an integer / a string slice argument of writeln! as itself, one line per call (rule R19's line log)",
         "Node::l_edges / r_edges are functions of the graph and the node (edges_of); their relational contract is proved in unit nodesall"],
     "level_text": "Partial claim, two clauses. (1) JSON export, separators of the \"links\" array: one trip of the links loop of the real DebruijnGraph::to_json_rest (rule R15 loop body; the whole body of Node::edges_to_json is proved separately - edges_to_json, rules R20 + R17 -: one link object per right-going edge with the right source, target and arrival side, commas exactly between them, and the result says whether anything was written) is proved to follow a node's group with a separator EXACTLY when a later node contributes a group too, and the preceding loop (R15) to compute the last node that has links - so the array has no leading, doubled or trailing comma for any graph, with or without links on the last node (Verus, unbounded). Also: one trip of the nodes loop (the node's object, then a separator exactly when another node follows: every node once, in id order) and one trip of the loop of Node::edges_to_json (the link object carries the right source, target and arrival side 'L'/'R', followed by a comma exactly when another edge follows). (2) GFA export: the node loop of write_gfa exports every node exactly once in id order (given node_to_gfa's assumed whole-function behaviour); the S line of a node carries its id and its sequence rendered as ACGT text (to_dna_string proved); and the link clause, per node: the two loops of the real DebruijnGraph::node_to_gfa that write the L lines (rule R15 statement range) are proved to write, in order, exactly one line `L u - v t (K-1)M` for every left edge of u whose target id is >= u and exactly one line `L u + v t (K-1)M` for every right edge whose target id is > u OR which is a right-side hairpin (target u, arriving at u's right end), with t = '+' when the link arrives at v's left end and '-' at its right end - the canonical-emitter rule under which every adjacency, including self-links on either side, is listed exactly once (Verus, unbounded).",
-    "level_note": "PARTIAL: only the L lines of the GFA export and the separators of the JSON links array; serde, the rest of the JSON export, S lines and byte-level well-formedness are not decided (see undecided_clauses). Two genuine defects were found by these obligations and repaired (known_findings.json F4, F5).",
+    "level_note": "PARTIAL: the per-node blocks of the GFA export (S line with id and sequence text, then exactly the selected L lines; one block per node in id order) and the link groups / separators of the JSON links array; serde, the rest of the JSON export, the rendering of format strings and byte-level well-formedness are not decided (see undecided_clauses). Two genuine defects were found by these obligations and repaired (known_findings.json F4, F5).",
 }
 
 NOT_APPLICABLE = {
